@@ -9,6 +9,7 @@
 package refmodel
 
 import (
+	"encoding/base64"
 	"encoding/json"
 	"fmt"
 	"math"
@@ -312,6 +313,16 @@ func (m *Model) valid(sn any, v any, p Pos) Verdict {
 		case "null":
 			return m.reject(p, "type: want null, got %s", kind)
 		default:
+			if t == "array" && kind == "string" && m.MinSized && m.dev("SIZED_UINT8_ARRAY_IS_BYTES") && m.sizedUint8(s["items"], p.File) {
+				// as built: the element type is uint8, so the field is a []byte and encoding/json takes a base64 string for it
+				if b, err := base64.StdEncoding.DecodeString(v.(string)); err == nil {
+					m.fire("SIZED_UINT8_ARRAY_IS_BYTES")
+					if !m.itemsOK(s, len(b), true) {
+						return m.reject(p, "items count %d (base64)", len(b))
+					}
+					return Accept
+				}
+			}
 			if t != kind {
 				return m.reject(p, "type: want %s, got %s", t, kind)
 			}
@@ -948,4 +959,57 @@ func compositeWithRef(s S, tl []string) bool {
 		}
 	}
 	return false
+}
+
+// sizedUint8: with --min-sized-ints an integer schema whose admitted range lies in [0, 255] becomes uint8.
+func (m *Model) sizedUint8(sn any, file string) bool {
+	s, ok := sn.(map[string]any)
+	if !ok {
+		return false
+	}
+	if ref, ok := s["$ref"].(string); ok {
+		t, f, err := m.Resolve(ref, file)
+		if err != nil {
+			return false
+		}
+		return m.sizedUint8(t, f)
+	}
+	tl := typeList(s)
+	if len(tl) != 1 || tl[0] != "integer" {
+		return false
+	}
+	if _, isEnum := s["enum"]; isEnum {
+		return false
+	}
+	var lo, hi *big.Rat
+	one := big.NewRat(1, 1)
+	if r := rat(s["minimum"]); r != nil {
+		lo = r
+		if b, _ := s["exclusiveMinimum"].(bool); b {
+			lo = new(big.Rat).Add(r, one)
+		}
+	}
+	if r := rat(s["exclusiveMinimum"]); r != nil {
+		if _, isBool := s["exclusiveMinimum"].(bool); !isBool {
+			e := new(big.Rat).Add(r, one)
+			if lo == nil || e.Cmp(lo) > 0 {
+				lo = e
+			}
+		}
+	}
+	if r := rat(s["maximum"]); r != nil {
+		hi = r
+		if b, _ := s["exclusiveMaximum"].(bool); b {
+			hi = new(big.Rat).Sub(r, one)
+		}
+	}
+	if r := rat(s["exclusiveMaximum"]); r != nil {
+		if _, isBool := s["exclusiveMaximum"].(bool); !isBool {
+			e := new(big.Rat).Sub(r, one)
+			if hi == nil || e.Cmp(hi) < 0 {
+				hi = e
+			}
+		}
+	}
+	return lo != nil && hi != nil && lo.Sign() >= 0 && hi.Cmp(big.NewRat(255, 1)) <= 0
 }
